@@ -231,16 +231,39 @@ fn case_textdiff(kv: &Kv) -> String {
         set_deadline(&mut c, dl, via);
     }
     similar::verif::set_repair_swap(kv.get("repair").copied().unwrap_or("0") == "1");
+    // the TextDiff::from_* constructors = default configuration (Myers, no deadline, default newline flag)
+    fn ctor<'a, T: DiffableStr + ?Sized>(kind: &str, old: &'a T, new: &'a T) -> TextDiff<'a, 'a, 'a, T> {
+        match kind {
+            "lines" => TextDiff::from_lines(old, new),
+            "words" => TextDiff::from_words(old, new),
+            "chars" => TextDiff::from_chars(old, new),
+            "uwords" => TextDiff::from_unicode_words(old, new),
+            "graphemes" => TextDiff::from_graphemes(old, new),
+            _ => panic!("bad tokenizer"),
+        }
+    }
+    fn same_diff<'a, T: DiffableStr + ?Sized>(a: &TextDiff<'a, 'a, 'a, T>, b: &TextDiff<'a, 'a, 'a, T>) -> bool {
+        a.ops() == b.ops()
+            && a.algorithm() == b.algorithm()
+            && a.newline_terminated() == b.newline_terminated()
+            && a.old_slices().len() == b.old_slices().len()
+            && a.new_slices().len() == b.new_slices().len()
+            && a.old_slices().iter().zip(b.old_slices()).all(|(x, y)| x.as_bytes() == y.as_bytes())
+            && a.new_slices().iter().zip(b.new_slices()).all(|(x, y)| x.as_bytes() == y.as_bytes())
+    }
+    let defaults = kv["alg"] == "M" && dl.is_none() && via != "timeout_max" && kv.get("nlo").copied().unwrap_or("-") == "-";
     let r = if kv["mode"] == "str" {
         let os = std::str::from_utf8(&o).unwrap();
         let ns = std::str::from_utf8(&n).unwrap();
         let d = diff_with(&c, kind, os, ns);
         let probes = if dl.is_some() { similar::verif::clock_remove() } else { 0 };
-        textdiff_report(&d, os, ns, probes)
+        let cs = !defaults || same_diff(&d, &ctor(kind, os, ns));
+        format!("{} ctor_same={}", textdiff_report(&d, os, ns, probes), if cs { 1 } else { 0 })
     } else {
         let d = diff_with(&c, kind, &o[..], &n[..]);
         let probes = if dl.is_some() { similar::verif::clock_remove() } else { 0 };
-        textdiff_report(&d, &o[..], &n[..], probes)
+        let cs = !defaults || same_diff(&d, &ctor(kind, &o[..], &n[..]));
+        format!("{} ctor_same={}", textdiff_report(&d, &o[..], &n[..], probes), if cs { 1 } else { 0 })
     };
     similar::verif::set_repair_swap(false);
     r
@@ -414,7 +437,23 @@ fn case_remap(kv: &Kv) -> String {
         let d = diff_with(&c, kind, os, ns);
         let rm = similar::utils::TextDiffRemapper::from_text_diff(&d, os, ns);
         let v2: Vec<(ChangeTag, &str)> = d.ops().iter().flat_map(|op| rm.iter_slices(op)).collect();
-        let same = if kind == "lines" { true } else { v == v2 };
+        // the other constructor and the two direct slicers must agree with iter_slices
+        let rm2 = similar::utils::TextDiffRemapper::new(d.old_slices(), d.new_slices(), os, ns);
+        let v3: Vec<(ChangeTag, &str)> = d.ops().iter().flat_map(|op| rm2.iter_slices(op)).collect();
+        let mut v4: Vec<(ChangeTag, &str)> = vec![];
+        for op in d.ops() {
+            let (tag, orr, nrr) = op.as_tag_tuple();
+            match tag {
+                similar::DiffTag::Equal => v4.push((ChangeTag::Equal, rm.slice_old(orr).unwrap())),
+                similar::DiffTag::Delete => v4.push((ChangeTag::Delete, rm.slice_old(orr).unwrap())),
+                similar::DiffTag::Insert => v4.push((ChangeTag::Insert, rm.slice_new(nrr).unwrap())),
+                similar::DiffTag::Replace => {
+                    v4.push((ChangeTag::Delete, rm.slice_old(orr).unwrap()));
+                    v4.push((ChangeTag::Insert, rm.slice_new(nrr).unwrap()));
+                }
+            }
+        }
+        let same = (if kind == "lines" { true } else { v == v2 }) && v2 == v3 && v2 == v4;
         format!(
             "slices={} remapper_same={} ops={} otoks={} ntoks={} bounds={}",
             fmt_slices(&v),
@@ -431,7 +470,23 @@ fn case_remap(kv: &Kv) -> String {
         let d = diff_with(&c, kind, &o[..], &n[..]);
         let rm = similar::utils::TextDiffRemapper::from_text_diff(&d, &o[..], &n[..]);
         let v2: Vec<(ChangeTag, &[u8])> = d.ops().iter().flat_map(|op| rm.iter_slices(op)).collect();
-        let same = if kind == "lines" { true } else { v == v2 };
+        // the other constructor and the two direct slicers must agree with iter_slices
+        let rm2 = similar::utils::TextDiffRemapper::new(d.old_slices(), d.new_slices(), &o[..], &n[..]);
+        let v3: Vec<(ChangeTag, &[u8])> = d.ops().iter().flat_map(|op| rm2.iter_slices(op)).collect();
+        let mut v4: Vec<(ChangeTag, &[u8])> = vec![];
+        for op in d.ops() {
+            let (tag, orr, nrr) = op.as_tag_tuple();
+            match tag {
+                similar::DiffTag::Equal => v4.push((ChangeTag::Equal, rm.slice_old(orr).unwrap())),
+                similar::DiffTag::Delete => v4.push((ChangeTag::Delete, rm.slice_old(orr).unwrap())),
+                similar::DiffTag::Insert => v4.push((ChangeTag::Insert, rm.slice_new(nrr).unwrap())),
+                similar::DiffTag::Replace => {
+                    v4.push((ChangeTag::Delete, rm.slice_old(orr).unwrap()));
+                    v4.push((ChangeTag::Insert, rm.slice_new(nrr).unwrap()));
+                }
+            }
+        }
+        let same = (if kind == "lines" { true } else { v == v2 }) && v2 == v3 && v2 == v4;
         format!(
             "slices={} remapper_same={} ops={} otoks={} ntoks={} bounds={}",
             fmt_slices(&v),
@@ -470,39 +525,59 @@ fn case_inline(kv: &Kv) -> String {
     let n = unhex(kv["new"]);
     let (c, _) = cfg(kv);
     let dl = kv.get("idl").and_then(|x| parse_opt(x));
+    fn fmt_ch<'s, T: DiffableStr + ?Sized>(ch: similar::InlineChange<'s, T>) -> String {
+        let vals: Vec<String> = ch
+            .values()
+            .iter()
+            .map(|(e, v)| format!("{}.{}", if *e { 1 } else { 0 }, hex(v.as_bytes())))
+            .collect();
+        format!(
+            "{}:{}:{}:{}:{}",
+            fmt_tag(ch.tag()),
+            fmt_opt(ch.old_index()),
+            fmt_opt(ch.new_index()),
+            if ch.missing_newline() { 1 } else { 0 },
+            join(vals, ";")
+        )
+    }
     fn report<'a, T: DiffableStr + ?Sized>(d: &'a TextDiff<'a, 'a, 'a, T>, dl: Option<u64>) -> String {
         let mut per_op = vec![];
         let mut probes_total = 0;
+        let mut default_ok = true;
         for op in d.ops() {
             let deadline = install_clock(dl);
-            let chs: Vec<String> = d
-                .iter_inline_changes_deadline(op, deadline)
-                .map(|ch| {
-                    let vals: Vec<String> = ch
-                        .values()
-                        .iter()
-                        .map(|(e, v)| format!("{}.{}", if *e { 1 } else { 0 }, hex(v.as_bytes())))
-                        .collect();
-                    format!(
-                        "{}:{}:{}:{}:{}",
-                        fmt_tag(ch.tag()),
-                        fmt_opt(ch.old_index()),
-                        fmt_opt(ch.new_index()),
-                        if ch.missing_newline() { 1 } else { 0 },
-                        join(vals, ";")
-                    )
-                })
-                .collect();
+            let chs: Vec<String> = d.iter_inline_changes_deadline(op, deadline).map(fmt_ch).collect();
             if dl.is_some() {
                 probes_total += similar::verif::clock_remove();
+            }
+            if dl.is_none() {
+                // iter_inline_changes(op) = the same with a 500 ms timeout counted from the call: under a clock that
+                // never expires the result is that of no deadline, and the value reaching the algorithm is call
+                // time + 500 ms
+                use std::time::{Duration, Instant};
+                similar::verif::clock_install(None);
+                similar::verif::reset_last_deadline();
+                let t0 = Instant::now();
+                let chs2: Vec<String> = d.iter_inline_changes(op).map(fmt_ch).collect();
+                let t1 = Instant::now();
+                similar::verif::clock_remove();
+                let half = Duration::from_millis(500);
+                let dl_ok = match similar::verif::last_deadline() {
+                    None => true,
+                    Some(x) => x >= t0 + half && x <= t1 + half,
+                };
+                if chs2 != chs || !dl_ok {
+                    default_ok = false;
+                }
             }
             per_op.push(join(chs, ","));
         }
         let _ = probes_total;
         format!(
-            "ops={} inline={}",
+            "ops={} inline={} default_ok={}",
             fmt_calls(&ops_to_calls(d.ops())),
-            join(per_op, "|")
+            join(per_op, "|"),
+            if default_ok { 1 } else { 0 }
         )
     }
     if kv["mode"] == "str" {
